@@ -1,9 +1,8 @@
 SPECIFICATION Spec
 CONSTANTS
-  MaxTraits = 2
+  MaxTraits = 1
   MaxMembers = 2
   AnyOrder = FALSE
   RepeatConflictIsError = TRUE
 INVARIANTS TypeOK ImplsAreDocumented FoldIsUnroll RejectedIffFaulty NeverPanics
-PROPERTY Terminates
 CHECK_DEADLOCK FALSE
